@@ -26,7 +26,7 @@ RULE = ("case = (generated HDF4 file, option set 1, option set 2).  Files: 0-3 n
         "succeeded on a file with >= 1 SDS or image and >= 1 option; distinct by (file script, options)")
 TRUSTED = ["Coq 8.16.1 kernel", "extraction (ExtrOcamlBasic only; Z/positive/nat inductive)",
            "translator gen_consts.py + plugin gen/plugins/repack_tabs.py (keyword tables, parameter ranges, threshold, "
-           "branch conditions of copy_sds/copy_gr -> gen/Gen_Repack.v)",
+           "branch conditions of copy_sds/copy_gr, buffer constants and the statements of the strip-mining loop -> gen/Gen_Repack.v)",
            "OCaml driver extract/repack_main.ml; C harness harness/drive_repack.c (file generator and API-level content "
            "dumper: SD, GR, V, VS, AN interfaces and Hfind/Hgetelement for palettes), harness/drive_repack_fn.c; generator, "
            "canonicalisation and comparison in checks/C18.py",
